@@ -70,6 +70,13 @@ def viol(prim, z):
         if prim.get('w') is not None:
             m = max(m, np.max(z[U] - np.array(prim['w'], float)))
         return float(m)
+    if t == 'wass':
+        # lifted Wasserstein-type support: ||z[:k] - c||_p <= z[k] <= ubar
+        k = len(prim['c'])
+        o = {1: 1, 2: 2, 'inf': np.inf}[prim['p']]
+        u = z[k]
+        return float(max(np.linalg.norm(z[:k] - np.array(prim['c'], float), o) - u,
+                         u - prim['ubar']))
     if t == 'kl':
         q = np.array(prim['q'], float)
         p = z[I]
@@ -188,6 +195,12 @@ def build_rsome(prims, z, rng=None):
             out.append(u.sum() <= prim['gamma'])
             if prim.get('w') is not None:
                 out.append(u <= _ua(prim['w']))
+        elif t == 'wass':
+            k = len(prim['c'])
+            c = _ua(prim['c'])
+            deg = {1: 1, 2: 2, 'inf': 'inf'}[prim['p']]
+            out.append(rso.norm(z[:k] - c, deg) <= z[k])
+            out.append(z[k] <= prim['ubar'])
         elif t == 'kl':
             q = _ua(prim['q'])
             out.append(zi >= 0)
@@ -210,7 +223,11 @@ def build_rsome(prims, z, rng=None):
 # ------------------------------------------------------------------ maximiser
 
 def classify(prims):
-    ts = {p['t'] for p in prims}
+    ts = {('wass2' if (p['t'] == 'wass' and p['p'] == 2) else 'wasspoly' if p['t'] == 'wass'
+           else p['t']) for p in prims}
+    if 'wass2' in ts:
+        return 'smooth'
+    ts = {('box' if t_ == 'wasspoly' else t_) for t_ in ts}
     if ts <= set(POLY):
         return 'poly'
     if ts <= set(POLY) | set(SOC):
@@ -257,6 +274,20 @@ def _poly_rows(prims, n):
                 rows_pending.append(('ub', {i: -D[k], e: -1.0}, -D[k] * c[k]))
                 tot[e] = 1.0
             rows_pending.append(('ub', tot, prim['r']))
+        elif t == 'wass':
+            kk = len(prim['c'])
+            c = np.array(prim['c'], float)
+            rows_pending.append(('ub', {kk: 1.0}, prim['ubar']))
+            if prim['p'] == 'inf':
+                for i in range(kk):
+                    rows_pending.append(('ub', {i: 1.0, kk: -1.0}, c[i]))
+                    rows_pending.append(('ub', {i: -1.0, kk: -1.0}, -c[i]))
+            else:
+                import itertools as _it
+                for sg in _it.product([-1.0, 1.0], repeat=kk):
+                    coef = {i: sg[i] for i in range(kk)}
+                    coef[kk] = -1.0
+                    rows_pending.append(('ub', coef, float(np.dot(sg, c))))
         elif t == 'absbudget':
             c = np.array(prim['c'], float)
             U = prim['uidx']
@@ -370,6 +401,8 @@ def _smooth_cons(prims, n):
                 return r ** p - np.sum(v ** p)
             cons.append({'type': 'ineq', 'fun': f})
         elif t == 'quad':
+            cons.append({'type': 'ineq', 'fun': lambda z, p=prim: -viol(p, z)})
+        elif t == 'wass':
             cons.append({'type': 'ineq', 'fun': lambda z, p=prim: -viol(p, z)})
         elif t in ('kl', 'entropy'):
             cons.append({'type': 'ineq', 'fun': lambda z, I=I: z[I]})
